@@ -238,15 +238,17 @@ def prune_files_by_bounds(
 
     # Build column name to field ID mapping from schema
     col_name_to_id: Dict[str, int] = {}
+    col_name_to_type: Dict[str, Any] = {}
     for field_dict in schema.fields:
         field_id = field_dict.get("id")
         field_name = field_dict.get("name")
         if field_id is not None and field_name:
             col_name_to_id[field_name] = field_id
+            col_name_to_type[field_name] = field_dict.get("type")
 
     pruned = []
     for data_file in data_files:
-        if _file_may_match(data_file, expressions, col_name_to_id):
+        if _file_may_match(data_file, expressions, col_name_to_id, col_name_to_type):
             pruned.append(data_file)
 
     return pruned
@@ -256,6 +258,7 @@ def _file_may_match(
     data_file: "DataFile",
     expressions: List[FilterExpression],
     col_name_to_id: Dict[str, int],
+    col_name_to_type: Optional[Dict[str, Any]] = None,
 ) -> bool:
     """
     Check if a file MAY contain matching records based on column bounds.
@@ -285,6 +288,20 @@ def _file_may_match(
 
         if file_min is None or file_max is None:
             # No bounds available for this column, can't prune
+            continue
+
+        # The comparisons below are exact Python comparisons, but the rows are
+        # filtered by Arrow, which first casts the literal to the column's type
+        # (a Decimal or an int beyond 2^53 becomes the nearest double, a double
+        # on a float32 column is narrowed inside is_in, ...). Prune only where
+        # both are bound to agree; otherwise the file has to be read.
+        col_type = (col_name_to_type or {}).get(expr.column)
+        literals = expr.value if expr.op == FilterOp.IN else [expr.value]
+        if not isinstance(literals, (list, tuple, set, frozenset)) or not all(
+            _compares_like_arrow(v, bound, col_type)
+            for v in literals
+            for bound in (file_min, file_max)
+        ):
             continue
 
         # Check if filter condition is impossible given bounds
@@ -346,6 +363,39 @@ def _file_may_match(
             continue
 
     return True  # File may contain matches
+
+
+def _compares_like_arrow(value: Any, bound: Any, col_type: Any) -> bool:
+    """Whether ordering `value` against `bound` in Python is what Arrow does.
+
+    True for a literal of the bound's own type. A number of the other numeric
+    kind is exact in Python but goes through the column's floating type in
+    Arrow, so it only agrees while it is exactly representable there (2^53 for
+    double, 2^24 and float32 values for float; unknown type: the stricter).
+    Any other cross-type literal (Decimal, datetime on a date column, bytes on
+    a string column, ...) is not pruned on.
+    """
+    if isinstance(value, bool) or isinstance(bound, bool):
+        return isinstance(value, bool) and isinstance(bound, bool)
+    if isinstance(bound, (int, float)):
+        if not isinstance(value, (int, float)):
+            return False
+        single = col_type != "double"  # float32 column, or unknown
+        if isinstance(value, int) != isinstance(bound, int):
+            whole = value if isinstance(value, int) else bound
+            if abs(whole) > (2**24 if single and isinstance(bound, float) else 2**53):
+                return False
+        if single and isinstance(bound, float) and isinstance(value, float):
+            if value == value and abs(value) != float("inf"):
+                import struct
+
+                try:
+                    if struct.unpack("f", struct.pack("f", value))[0] != value:
+                        return False
+                except OverflowError:
+                    return False
+        return True
+    return type(value) is type(bound)
 
 
 def get_column_id_by_name(schema: "Schema", column_name: str) -> Optional[int]:
